@@ -689,16 +689,21 @@ func extRUnlock(fr *frame, a []value) value {
 type onceState struct{ done bool }
 
 func extOnceDo(fr *frame, a []value) value {
+	// The done flag lives in the Once value itself (field done.v), so that
+	// copying or zeroing the enclosing struct behaves as in Go.
 	p := a[0].(*value)
-	st, ok := fr.i.side[p].(*onceState)
-	if !ok {
-		st = &onceState{}
-		fr.i.side[p] = st
+	once, ok := (*p).(structure)
+	if !ok || len(once) < 2 {
+		panic(engineError("sync.Once: unexpected representation"))
 	}
-	if st.done {
+	done, ok := once[1].(structure)
+	if !ok || len(done) < 2 {
+		panic(engineError("sync.Once: unexpected representation of the done flag"))
+	}
+	if asUint64Any(done[1]) != 0 {
 		return nil
 	}
-	st.done = true
+	done[1] = uint32(1)
 	call(fr.i, fr, token.NoPos, a[1], nil)
 	return nil
 }
